@@ -469,7 +469,7 @@ func corrupt(t *rapid.T, p *ir.Program) (string, bool) {
 		return "", false
 	}
 	s := plug[rapid.IntRange(0, len(plug)-1).Draw(t, "corrupt_step")]
-	kind := rapid.SampledFrom([]string{"dangling-step", "dangling-output", "dangling-stage", "dangling-input-field", "wrong-literal-type", "missing-required-input", "self-cycle", "back-edge", "dangling-output-ref", "unknown-input-key", "missing-input-key", "missing-input-key", "oneof-discriminator-is-a-field", "oneof-option-not-an-object", "bare-root-expression", "input-ref-to-undeclared-object"}).Draw(t, "corruption")
+	kind := rapid.SampledFrom([]string{"dangling-step", "dangling-output", "dangling-stage", "dangling-input-field", "wrong-literal-type", "missing-required-input", "self-cycle", "back-edge", "dangling-output-ref", "unknown-input-key", "missing-input-key", "missing-input-key", "oneof-discriminator-is-a-field", "oneof-option-not-an-object", "bare-root-expression", "input-ref-to-undeclared-object", "declared-output-schema-does-not-fit"}).Draw(t, "corruption")
 	switch kind {
 	case "dangling-step":
 		s.In = setFieldIR(s.In, "a", ir.StepRef("nosuchstep", "outputs", "success", "a"))
@@ -521,6 +521,14 @@ func corrupt(t *rapid.T, p *ir.Program) (string, bool) {
 		} else {
 			p.Outputs[0].E = ir.Obj(ir.F("x", ir.Ref()))
 		}
+	case "declared-output-schema-does-not-fit":
+		// an output with a declared schema {x: integer} whose data puts a string there
+		if p.Explicit == nil {
+			p.Explicit = map[string]bool{}
+		}
+		// (with a declared schema every output has to be declared: this is the only one)
+		p.Explicit = map[string]bool{"typed": false}
+		p.Outputs = []ir.Output{{ID: "typed", E: ir.Obj(ir.F("x", ir.Ref("input", "tag")))}}
 	case "input-ref-to-undeclared-object":
 		p.DanglingInputRef = true
 	case "oneof-option-not-an-object":
